@@ -178,17 +178,18 @@ def real_groups(tier, seed):
     rng = random.Random(seed * 433 + 11)
     isas = core.QUICK_ISAS if tier == "quick" else core.ALL_ISAS
     smax, cap = (3, 40) if tier == "quick" else (4, 400)
-    groups = []
+    groups = []; gi = 0
     for isa in isas:
         for t in RTYPES:
+            gi += 1
             if isa == "scalar" and "complex" in t:
                 continue      # compile acceptance: with FASTOR_DONT_VECTORISE no vector_setter overload matches complex<double>
             V = lanes(isa, TSIZE[t])
             dfam = dyn_family(V, rng, tier); ffam = fix_family(V, rng, tier)
             if tier == "quick":
                 # one representative per class: rank-1 with tail, 2-D with row remainder, integer mixture, both n-D routes
-                pick = [4, 7, 9, 14 + seed % 2, 16 + seed % 3]
-                dfam = [dfam[i] for i in pick]; ffam = [ffam[i] for i in (1, 4, 7 + seed % 3)]
+                pick = [4, 7, 9, 14 + (seed + gi) % 5]
+                dfam = [dfam[i] for i in pick]; ffam = [ffam[i] for i in (3 + (seed + gi) % 4, 7 + (seed + gi) % 3)]
             calls = []
             for n, (ks, par, res) in enumerate(dfam):
                 ck = 0 if const_rejected(ks, (n + seed) % 2) else (n + seed) % 2
